@@ -653,7 +653,12 @@ def add_context(rng, spec, root, feat):
                 nv = same_type_value(rng, same_type_value(rng, v))
                 ufile = f'{cdir}/used{si}.{rng.choice(["json", "yaml"])}'
                 ns = inst['ns']
-                if ns and rng.random() < 0.8:
+                twins_ = [i2 for i2 in insts if i2 is not inst and i2['ns'] and (i2['file'], i2['part']) == (inst['file'], inst['part']) and k in i2['values']]
+                if ns and twins_ and rng.random() < 0.7:
+                    # ONE context file mounted twice (`as n1`, `as n2`): both mounts of the config get its value
+                    udata = {k: nv}
+                    data['uses'] = [{'file': ufile, 'as': '::'.join(ns)}, {'file': ufile, 'as': '::'.join(rng.choice(twins_)['ns'])}]
+                elif ns and rng.random() < 0.8:
                     cut = rng.randint(1, len(ns))
                     prefix, rest = ns[:cut], ns[cut:]
                     udata = {'for_namespaces': {'::'.join(rest): {k: nv}}} if rest else {k: nv}
